@@ -190,8 +190,16 @@ CHECKS["C09"] = dict(
     text=("PROVED on Ssr/View.v and Dom/Client.v for every view without NoSsr and every state (Dom/ServerClient.v, axiom-free): the server output and a client render show the same visible tree (C09_visible_tree: hydration "
           "has nothing to change); the elements carrying a hydration key on the server are, in key order, exactly the elements the client creates outside NoHydrate, and the final key counter is their number, so every "
           "stamped element is requested exactly once (C09_keys, for adoptable views: no element under a Show that is off = known finding F10, shown by counterexample); after any sequence of writes the client view shows what "
-          "the server would render for the new state (C09_updates_agree, from C05's theorem). PARTIAL: the adoption mechanism itself (marker search, text splicing in hydrate_node.rs) has no Gallina model; it is decided by the "
-          "end-to-end check: for ~500 (quick) / ~6000 (thorough) random views plus hand-picked soft spots the server string produced by the real native SSR build is parsed into the in-process DOM and hydrated by the real "
+          "the server would render for the new state (C09_updates_agree, from C05's theorem). THE ADOPTION WALK ITSELF (Dom/Hydrate.v: claim by key from the registry, adoption of dynamic text and markers by search among the parent's children; "
+          "server_dom = the server output as a browser parses it) is proved for EVERY view of the class `hydratable` and every state (Dom/Hydrate{Spec,Rel,Forest,Lay,Walk,Server,Facts,Client}.v, ~2200 lines, axiom-free): "
+          "hydrating the server DOM succeeds; (a) the element skeleton is the server's with the stamp on exactly the keyed elements (every server element still there, in place, none re-created); (c) the visible tree is "
+          "unchanged; (b)/(d) read back per DOM parent, every hydrated dynamic text is a fresh text node holding the signal's value with its marker gone, every hydrated dynamic-view marker is adopted, everything under "
+          "NoHydrate is still in server form (C09_hydrate_ok, C09_hydrate_nodes); the result shows what a client render shows (C09_hydrate_client). Each restriction of the class is justified by a refutation evaluated on the "
+          "model (Show off = F10, NoHydrate slot before a hydrated slot of the same kind = F16, lists / NoSsr / Show over non-elements = F11-F13, view-set data-hk, children of void elements), and on two enumerations of "
+          "small views the class is exactly where all clauses hold (C09h_class_exact_on_enumeration). Tie to the code on every run: Hydrate.v is given the REAL parsed server DOM and must predict the DOM right after the "
+          "real hydration (structure and surviving server nodes); server_dom must equal the parsed real server string; `hydratable` is evaluated on every generated view and the real hydration of every view in the class must "
+          "succeed and pass the oracle. NOT proved: that the instance built by hydration reacts like a client-created one (hyd returns a DOM, not an instance) -- decided by the end-to-end check. End-to-end check: "
+          "for ~500 (quick) / ~6000 (thorough) random views plus hand-picked soft spots the server string produced by the real native SSR build is parsed into the in-process DOM and hydrated by the real "
           "HydrateNode code; checked: no panic, every server element adopted exactly once in place (ids before = ids after, all and only keyed elements stamped), visible tree unchanged, after 0-4 writes the visible tree "
           "equals a fresh client render and follows Dom/Client.v. Genuine defects found and recorded as known findings F9-F13, F15, F16."),
     note=DTB, design="5.C09")
